@@ -710,6 +710,7 @@ pub fn check_main(profiles: &[Profile], id: &str, tier: Tier) -> i32 {
         .set("distinct_interleavings", J::i(agg.interleavings.len() as i128))
         .set("interleaving_measure", J::s("distinct hashes of the per-run sequence (task, seam, poll result) over executor polls and provider/body seam events"))
         .set("sweep_cases", J::i(sweep_cases as i128))
+        .set("sweep_probes", J::from_counts(&sweep_out.probes))
         .set("required_probes", J::Arr(p.required.iter().map(|s| J::s(s)).collect()))
         .set("inadequate", J::Arr(inadequate.iter().map(|s| J::s(s)).collect()))
         .set("oracle_disagreements_unasserted", J::i(disagreements as i128))
